@@ -739,7 +739,7 @@ pub fn run_c13(ctx: &Ctx) -> Report {
     if all.counters[0] == 0 || all.counters[1] == 0 {
         rep.engine_failures.push("vacuity guard: no accepted inputs".into());
     }
-    let sum = super::history::run_harnesses(ctx, &["H-id", "H-cross"], &["c13."], &mut rep, false);
+    let sum = super::history::run_harnesses(ctx, if ctx.quick() { &["H-id", "H-cross-s"] } else { &["H-id", "H-cross"] }, &["c13."], &mut rep, false);
     super::history::fill_report(&mut rep, &sum, "C13: the conversions Locale <-> LanguageIdentifier on every reachable value");
     rep.rule = "E1 + E2 spaces; both parsers run on the same bytes (differential, no external oracle except 'well-formed' for clause 2); conversions checked on every accepted value and on every state of the E3 harnesses H-id and H-cross (where Locale -> LanguageIdentifier -> Locale is also an action). Non-trivial = at least one of the two parsers accepts (plus distinct E3 model values).".into();
     rep
